@@ -1518,6 +1518,8 @@ def gen_c07_spec(rng: random.Random) -> Dict[str, Any]:
             beh["ret_handle"] = True  # the return value is an object with __await__ (sync and async functions alike)
         elif beh["out"] == "ok" and rng.random() < 0.08:
             beh["ret_exc"] = True  # the return value is an exception instance
+        elif beh["out"] == "ok" and rng.random() < 0.1:
+            beh["ret_model"] = rng.choice(["model", "dataclass"])  # ... a pydantic model / a dataclass instance
         if task == "t_sync":
             pass
         elif rng.random() < 0.45:
@@ -1537,6 +1539,10 @@ def gen_c07_spec(rng: random.Random) -> Dict[str, Any]:
         msgs.append(m)
     spec: Dict[str, Any] = {"cfg": {"A": rng.choice([1, 2, 4, None]), "P": rng.choice([0, 1])}, "msgs": msgs,
                             "end_stream": True, "backend": {"lat": rng.choice([0, "y", 0.05]), "fail": fail}}
+    if rng.random() < 0.2 and not any("never" in m_["beh"].get("dur", []) for m_ in msgs):
+        # the worker is configured with a (short) wait_tasks_timeout: it is about shutting down, not about tasks
+        spec["cfg"]["W"] = rng.choice([0.05, 0.2])
+        spec["cfg"]["A"] = None
     if fail and rng.random() < 0.4:
         spec["backend"]["fail_noargs"] = True
     if rng.random() < 0.3:
@@ -1565,6 +1571,11 @@ def gen_c07_spec(rng: random.Random) -> Dict[str, Any]:
         spec["via"] = "inmemory"
         spec["inplace"] = rng.random() < 0.5  # InMemoryBroker(await_inplace=True): kiq returns after the execution
     spec["horizon"] = est_horizon(spec)
+    if spec["cfg"].get("W") is not None and spec.get("via") != "inmemory":
+        # (the worker is stopped after everything has been processed: the timeout never has anything to wait for)
+        spec["end_stream"] = False
+        spec["stop_at"] = round(spec["horizon"] + 1.0, 3)
+        spec["horizon"] = spec["stop_at"] + 30.0
     return spec
 
 
